@@ -433,8 +433,16 @@ func (ex *Exec) schedule() *Thread {
 				return t
 			}
 		}
-		// fire timers
+		// fire timers; a harness thread that stays blocked while timer after timer fires
+		// (e.g. a reconnect loop that never notices a stop request) never returns either
 		if ex.fireTimer() {
+			if ex.threads[0].state == Blocked {
+				ex.idleTimers++
+				if ex.idleTimers > 200 {
+					ex.violationHere("deadlock", "harness thread never continues although 200 timers fired: "+ex.blockedSummary())
+					panic(pathEnd{"violated", "livelock"})
+				}
+			}
 			continue
 		}
 		main := ex.threads[0]
